@@ -94,21 +94,22 @@ def wf_args(c):
     return [c.get(x) for x in ('addr', 'pbuf', 'tpage', 'count')]
 
 
-def wf_post(c, wire, replies_after_flush, nflush):
+def wf_post(c, wire, replies_after_flush, nflush, strict_last=False):
     """post-conditions of write_flash; replies_after_flush[k] is what the link delivers after the k-th transmission"""
     txs = [w for w in wire if w[0] == 'tx']
     nsent = len(txs)
+    c.let('nsent', nsent)
     c.ensure('only-link-calls', 'all(e[0] in ("link.send_packet", "link.receive_packet") for e in trace)')
-    c.ensure('bounded-transmissions', '1 <= %d <= 6' % nsent)
+    c.ensure('bounded-transmissions', '1 <= nsent <= 6')
     for i, w in enumerate(txs):
         c.let('hdr', w[1])
         c.let('d', w[2])
         c.ensure('tx%d-is-the-flash-write-command' % i, "hdr == 0xFF and d == pack('<BBHHH', addr, 0x18, pbuf, tpage, count)")
-    # order on the wire: flush receives, then strictly alternating transmission / reception
-    kinds = [w[0] for w in wire]
-    c.let('kinds', tuple(kinds))
+    # order on the wire: the downlink is drained first, then transmission and reception strictly alternate and
+    # nothing is transmitted after the reply that ended the exchange
+    c.let('kinds', tuple(w[0] for w in wire))
     c.let('expected_kinds', tuple(['rx'] * (nflush + 1) + ['tx', 'rx'] * nsent))
-    c.ensure('flush-then-alternate', 'kinds == expected_kinds')
+    c.ensure('drain-then-alternate', 'kinds == expected_kinds')
     last = replies_after_flush[nsent - 1] if 1 <= nsent <= len(replies_after_flush) else None
     c.let('last', last)
     if last is None:
@@ -117,27 +118,55 @@ def wf_post(c, wire, replies_after_flush, nflush):
     else:
         c.snapshot('answered', 'last.header == 0xFF and len(last.data) >= 2 and last.data[0] == addr and last.data[1] == 0x18')
         c.snapshot('positive', 'answered and len(last.data) >= 3 and last.data[2] == 1')
-    c.ensure('gives-up-only-after-6', 'implies(not answered, %d == 6)' % nsent)
+    c.ensure('gives-up-only-after-6-transmissions', 'implies(not answered, nsent == 6)')
     if c.get('raised') is None:
         c.ensure('result-is-bool', 'result is True or result is False')
-        c.ensure('done-iff-positive-reply-to-last-transmission', 'iff(result, positive)')
-        c.ensure('unanswered-reports-error-minus-1', 'implies(not answered, result is False and cl.error_code == -1)')
+        c.ensure('done-only-on-positive-reply-to-last-transmission', 'implies(result, positive)')
+        c.ensure('unanswered-or-negative-is-reported-failed', 'implies(not positive, result is False)')
+        c.ensure('unanswered-reports-error-minus-1', 'implies(not answered, cl.error_code == -1)')
+        # completeness (the flash was programmed, so the caller should go on): stated for the first five transmissions;
+        # the sixth is the contract write_flash.sixth_reply_honoured (FINDING, see module docstring)
+        c.ensure('positive-reply-is-reported-done', 'implies(positive and nsent <= 5, result is True)')
         if last is not None:
-            c.ensure('answered-reports-target-error-code', 'implies(answered, cl.error_code == last.data[3])')
+            c.ensure('answered-reports-target-error-code', 'implies(answered and nsent <= 5, cl.error_code == last.data[3])')
+        if strict_last:
+            c.ensure('positive-reply-to-sixth-transmission-is-reported-done', 'implies(positive, result is True)')
     else:
-        # a reply of the addressed target that is too short to carry done/error bytes
+        # a reply of the addressed target that is too short to carry the done / error bytes
         c.ensure('raises-only-on-truncated-reply', "raised == 'IndexError' and answered and len(last.data) < 4")
 
 
-def _wf_patterns(first):
-    @contract('C12', 'write_flash.patterns.%s' % first, [CL + ':Cloader.write_flash'], clause=WF_CLAUSE, max_paths=6000,
-              bounded='every pattern over 6 attempts of {reply lost, arbitrary 4-byte packet with arbitrary header}; downlink empty at start')
+REPLY_KINDS = {
+    'L': None,                                                       # reply lost
+    'X': 'True',                                                     # arbitrary packet
+    'H': '{r}.header != 0xFF',                                       # packet of another port / channel
+    'A': '{r}.header == 0xFF and not ({r}.data[0] == addr and {r}.data[1] == 0x18)',   # other target or other command
+    'M': '{r}.header == 0xFF and {r}.data[0] == addr and {r}.data[1] == 0x18',          # reply to this command
+}
+
+
+def scripted_replies(c, kinds, n=4):
+    out = []
+    for i, kd in enumerate(kinds):
+        if kd == 'L':
+            out.append(None)
+            continue
+        r = reply_packet(c, 'r%d' % i, n)
+        c.let('r%d' % i, r)
+        c.require(REPLY_KINDS[kd].format(r='r%d' % i))
+        out.append(r)
+    return out
+
+
+def _wf_patterns(k0, k1):
+    @contract('C12', 'write_flash.patterns.%s%s' % (k0, k1), [CL + ':Cloader.write_flash'], clause=WF_CLAUSE,
+              bounded='replies are lost or 4 bytes long (other lengths: write_flash.reply_lengths); downlink empty at start '
+                      '(write_flash.drain); patterns: first two attempts %s,%s (L lost, H other header, A other target/command), '
+                      'then every pattern of {lost, arbitrary packet} - the 9 contracts + write_flash.early are exhaustive' % (k0, k1))
     def k(c):
         args = wf_args(c)
-        replies = []
-        for i in range(6):
-            kind = first[i] if i < len(first) else c.choice('kind%d' % i, ['L', 'X'])
-            replies.append(None if kind == 'L' else reply_packet(c, 'r%d' % i, 4))
+        kinds = [k0, k1] + [c.choice('kind%d' % i, ['L', 'X']) for i in range(2, 6)]
+        replies = scripted_replies(c, kinds)
         link, wire = mklink(c, [None] + replies)
         cl = cloader(c, link)
         c.reset_trace()
@@ -146,5 +175,167 @@ def _wf_patterns(first):
     return k
 
 
-for _f in ('L', 'X'):
-    _wf_patterns(_f)
+for _k0 in 'LHA':
+    for _k1 in 'LHA':
+        _wf_patterns(_k0, _k1)
+
+
+@contract('C12', 'write_flash.early', [CL + ':Cloader.write_flash'], clause=WF_CLAUSE,
+          bounded='4-byte replies; the reply of the addressed target arrives after the first or second transmission')
+def wf_early(c):
+    args = wf_args(c)
+    kinds = c.choice('pattern', [['M'], ['L', 'M'], ['H', 'M'], ['A', 'M']])
+    replies = scripted_replies(c, kinds)
+    link, wire = mklink(c, [None] + replies)
+    cl = cloader(c, link)
+    c.reset_trace()
+    c.call((cl, 'write_flash'), *args)
+    wf_post(c, wire, replies, 0)
+    c.ensure('no-retry-after-the-reply', 'nsent == %d' % len(kinds))
+
+
+@contract('C12', 'write_flash.reply_lengths', [CL + ':Cloader.write_flash'], clause=WF_CLAUSE,
+          bounded='one arbitrary packet of 0, 1, 2, 3, 5 or 12 data bytes after 0 or 5 lost replies, every other reply lost')
+def wf_lengths(c):
+    args = wf_args(c)
+    nlost = c.choice('nlost', [0, 5])
+    n = c.choice('n', [0, 1, 2, 3, 5, 12])
+    replies = [None] * nlost + [reply_packet(c, 'r', n)] + [None] * (5 - nlost)
+    link, wire = mklink(c, [None] + replies)
+    cl = cloader(c, link)
+    c.reset_trace()
+    c.call((cl, 'write_flash'), *args)
+    wf_post(c, wire, replies, 0)
+
+
+@contract('C12', 'write_flash.drain', [CL + ':Cloader.write_flash'],
+          clause=WF_CLAUSE + '; packets already waiting on the downlink (e.g. a stale positive reply) are not taken as the answer',
+          bounded='0..3 arbitrary stale packets; afterwards the first or the second transmission is answered by an arbitrary packet or never')
+def wf_drain(c):
+    args = wf_args(c)
+    nstale = c.choice('nstale', [0, 1, 2, 3])
+    stale = [reply_packet(c, 's%d' % i, 4) for i in range(nstale)]
+    kinds = c.choice('pattern', [['X'], ['L', 'X'], ['L'] * 6])
+    replies = scripted_replies(c, kinds) + [None] * (6 - len(kinds))
+    link, wire = mklink(c, stale + [None] + replies)
+    cl = cloader(c, link)
+    c.reset_trace()
+    c.call((cl, 'write_flash'), *args)
+    wf_post(c, wire, replies, nstale)
+
+
+@contract('C12', 'write_flash.sixth_reply_honoured', [CL + ':Cloader.write_flash'],
+          clause='FINDING (not required by C12, which only asks for a bounded retry and an abort): a positive reply to the sixth '
+                 'transmission is reported as failed with error code -1 although the target has programmed the pages',
+          thorough_only=True)
+def wf_sixth(c):
+    args = wf_args(c)
+    replies = scripted_replies(c, ['L'] * 5 + ['M'])
+    link, wire = mklink(c, [None] + replies)
+    cl = cloader(c, link)
+    c.reset_trace()
+    c.call((cl, 'write_flash'), *args)
+    wf_post(c, wire, replies, 0, strict_last=True)
+
+
+# ------------------------------------------------------------------------- _internal_flash (modular)
+
+def bootloader(c, cload):
+    bl = c.new(BL + ':Bootloader', None)
+    c.let('bl', bl)
+    c.let('cload_', cload)
+    c.snapshot('_', 'setattr(bl, "_cload", cload_)')
+    return bl
+
+
+def target_info(c, tid):
+    """the geometry record the bootloader keeps per target, built by the real constructor"""
+    t = c.new(BT + ':Target', tid)
+    c.let('tinfo', t)
+    for f in ('addr', 'ps', 'bp', 'fp', 'sp'):
+        c.let('_v', c.get(f))
+        c.snapshot('_', 'setattr(tinfo, %r, _v)' % {'addr': 'addr', 'ps': 'page_size', 'bp': 'buffer_pages', 'fp': 'flash_pages', 'sp': 'start_page'}[f])
+    return t
+
+
+def artifact(c, image, tname, typ='fw'):
+    return c.namedtuple(BL + ':FlashArtifact', image, c.namedtuple(BL + ':Target', 'cf2', tname, typ, [], []), None)
+
+
+IF_CLAUSE = ('an image that does not fit between the effective start page (target start page or override) and the end of the '
+             'flash is refused before anything is sent; otherwise every flash-write command programs, from buffers that hold '
+             'exactly the corresponding image pages, only pages inside [start, start + pages of the image) and below the flash '
+             'size, every image page is programmed, and a failed flash-write aborts with an exception before anything else is sent')
+MAXPAGES = 6
+
+
+def if_modular_post(c, oks):
+    """Ghost replay of the calls made on the loader against the contracts of upload_buffer (loads `data` into buffer
+    `slot` at `address`) and write_flash (programs flash pages page..page+count-1 from buffers bufpage.. iff it returns True)."""
+    trace = c.get('trace')
+    c.snapshot('fits', 'len(image) <= (fp - first) * ps')
+    c.ensure('only-loader-calls', 'all(e[0] in ("cload.upload_buffer", "cload.write_flash") for e in trace)')
+    c.ensure('refused-before-anything-is-sent', "implies(not fits, raised == 'Exception' and len(trace) == 0)")
+    c.ensure('image-that-fits-is-not-refused', 'implies(fits and raised is not None, len(trace) > 0)')
+    buf = {}
+    offs = []
+    nw = 0
+    prior_ok = 'True'
+    for i, e in enumerate(trace):
+        c.let('a', e[1])
+        if e[0] == 'cload.upload_buffer':
+            slot = e[1][1]
+            assert isinstance(slot, int), 'ghost replay needs a concrete buffer slot'
+            c.ensure('call%d-upload-in-buffer' % i, 'len(a) == 4 and a[0] == addr and 0 <= a[1] < bp and a[2] == 0 and 1 <= len(a[3]) <= ps')
+            buf[slot] = e[1][3]
+        elif e[0] == 'cload.write_flash':
+            bufpage, count = e[1][1], e[1][3]
+            assert isinstance(bufpage, int) and isinstance(count, int), 'ghost replay needs concrete buffer page and count'
+            c.ensure('call%d-write-from-buffers' % i, 'len(a) == 4 and a[0] == addr and a[1] >= 0 and a[3] >= 1 and a[1] + a[3] <= bp')
+            for j in range(count):
+                c.snapshot('P', 'a[2] + %d' % j)
+                c.ensure('call%d-page%d-inside-image-range' % (i, j), 'first <= P and (P - first) * ps < len(image)')
+                c.ensure('call%d-page%d-inside-flash' % (i, j), '0 <= P < fp')
+                c.let('content', buf.get(bufpage + j))
+                c.ensure('call%d-page%d-holds-image-page' % (i, j),
+                         'content is not None and content == image[(P - first) * ps:(P - first + 1) * ps]')
+                offs.append(c.snapshot('_off', 'P - first'))
+            c.let('ok', oks[nw])
+            c.ensure('call%d-failed-write-aborts-at-once' % i, "implies(not ok, raised == 'Exception' and len(trace) == %d)" % (i + 1))
+            prior_ok += ' and ok%d' % nw
+            nw += 1
+    c.let('offs', tuple(offs))
+    c.snapshot('all_ok', prior_ok)
+    c.ensure('no-error-when-all-writes-succeed', 'implies(fits and all_ok, raised is None)')
+    c.ensure('error-only-from-refusal-or-failed-write', "implies(raised is not None, raised == 'Exception' and (not fits or not all_ok))")
+    for q in range(MAXPAGES):
+        c.ensure('image-page%d-programmed' % q, 'implies(raised is None and %d * ps < len(image), any(o == %d for o in offs))' % (q, q))
+
+
+def _if_modular(ps):
+    @contract('C12', 'internal_flash.modular.ps%d' % ps, [BL + ':Bootloader._internal_flash'], float_mode='R', max_paths=3000, clause=IF_CLAUSE,
+              bounded='page size %d, images of at most %d pages; buffer pages (>= 1), flash pages, start page, override: any 16-bit '
+                      'value; image length and content symbolic' % (ps, MAXPAGES))
+    def if_modular(c):
+        tname = c.choice('target', ['stm32', 'nrf51'])
+        tid = {'stm32': 0xFF, 'nrf51': 0xFE}[tname]
+        c.int('addr', 0, 255), c.let('ps', ps), c.int('bp', 1, 65535), c.int('fp', 0, 65535), c.int('sp', 0, 65535)
+        has_override = c.choice('has_override', [False, True])
+        ov = c.int('override', 0, 65535) if has_override else None
+        c.let('first', ov if has_override else c.get('sp'))
+        image = c.seq('image', 'bytes')
+        c.require('len(image) >= 1 and len(image) <= %d * ps' % MAXPAGES)
+        oks = [c.bool('ok%d' % i) for i in range(MAXPAGES + 1)]
+        it = iter(oks)
+        tinfo = target_info(c, tid)
+        cload = c.ext('cload', attrs={'targets': c.dict([(tid, tinfo)]), 'error_code': 0},
+                      returns={'write_flash': lambda *_a: next(it)})
+        bl = bootloader(c, cload)
+        c.reset_trace()
+        c.call((bl, '_internal_flash'), artifact(c, image, tname), 1, 1, ov)
+        if_modular_post(c, oks)
+    return if_modular
+
+
+for _ps in (1, 3, 1024):
+    _if_modular(_ps)
